@@ -573,6 +573,7 @@ type pairRec struct {
 	Before   string
 	Mid      string // "" when b did not complete while a was parked
 	Final    string
+	Reload   string // after both completed: a new leader loads the same storage ("" = not taken)
 	Overlaid bool
 }
 
@@ -668,6 +669,13 @@ var pairScripts = []pairScript{
 	{Offline: true, Buried: true, A: op{K: "clean"}, B: op{K: "heartbeat", ID: 2}, Park: 0},
 	{Offline: true, Buried: true, A: op{K: "clean"}, B: op{K: "heartbeat", ID: 2}, Park: 1},
 	{Offline: true, Buried: true, A: op{K: "clean"}, B: op{K: "heartbeat", ID: 2}, Park: 2},
+	// the heartbeat's periodic save of the store meta (first heartbeat after the record was created / loaded) parked while a lifecycle
+	// command runs: the save carries the snapshot taken under the lock and must not land after the command
+	{A: op{K: "heartbeat", ID: 2}, B: op{K: "remove", ID: 2}, Park: 0},
+	{A: op{K: "heartbeat", ID: 2}, B: op{K: "remove", ID: 2, PD: true}, Park: 0},
+	{Offline: true, A: op{K: "heartbeat", ID: 2}, B: op{K: "check"}, Park: 0},
+	{Offline: true, A: op{K: "heartbeat", ID: 2}, B: op{K: "up", ID: 2}, Park: 0},
+	{A: op{K: "heartbeat", ID: 2}, B: op{K: "labels", ID: 2, Labels: []lab{{"zone", "w"}}}, Park: 0},
 }
 
 func (w *world) runPair(r *rng.R) pairRec { return w.runPairWith(r, nil) }
@@ -790,6 +798,8 @@ func (w *world) runPairWith(r *rng.R, sc *pairScript) pairRec {
 		p.Before = w.snapshot("ROk")
 		p.RA, p.RB, p.Mid, p.Overlaid = w.execPair(&p.A, &p.B, sid, p.ParkIdx)
 		p.Final = w.snapshot("ROk")
+		w.restart()
+		p.Reload = w.snapshot("ROk")
 		return p
 	}
 	// bring store 2 into a random lifecycle situation
@@ -811,13 +821,15 @@ func (w *world) runPairWith(r *rng.R, sc *pairScript) pairRec {
 		}
 		step(op{K: "check"})
 	}
-	p.A = genPairOp(r, r.Intn(8), sid, "a2")
+	p.A = genPairOp(r, []int{0, 1, 2, 3, 4, 5, 6, 7, 9, 9}[r.Intn(10)], sid, "a2") // 9: the store's heartbeat, parked at its persisting write
 	p.B = genPairOp(r, r.Intn(10), sid, "a2") // region and store heartbeats have no (countable) store write to be parked at: only as b
 	p.ParkIdx = r.Pick(60, 20, 20)
 	w.kb.Arm(nil)
 	p.Before = w.snapshot("ROk")
 	p.RA, p.RB, p.Mid, p.Overlaid = w.execPair(&p.A, &p.B, sid, p.ParkIdx)
 	p.Final = w.snapshot("ROk")
+	w.restart()
+	p.Reload = w.snapshot("ROk")
 	return p
 }
 
@@ -891,6 +903,121 @@ func (m multiRec) coq() string {
 	return "(" + cv + ", " + m.In.Boot.coq() + ",\n  " + coqfmt.List(ops) + ",\n  " + o + ", " + coqfmt.List(fs) + ",\n  " + m.Obs + ")"
 }
 
+// ---------- leader changes with more store records than one page of Storage.LoadStores (100) ----------
+type hstep struct {
+	K    string // op | restart | bulk
+	Op   op
+	Bulk []payload
+}
+type restartRec struct {
+	In    caseIn // boot only
+	Steps []hstep
+	Obs   []string
+}
+
+func (w *world) runRestart(r *rng.R, n int, sparse bool) restartRec {
+	boot := payload{ID: 1, Addr: "a1", Ver: "4.0.0"}
+	w.reset("0.0.0", boot, false)
+	rec := restartRec{In: caseIn{CV: "0.0.0", Boot: boot}}
+	rec.Obs = append(rec.Obs, w.snapshot("ROk"))
+	opStep := func(o op) {
+		rec.Obs = append(rec.Obs, w.exec(&o))
+		rec.Steps = append(rec.Steps, hstep{K: "op", Op: o})
+	}
+	restart := func() {
+		w.restart()
+		rec.Obs = append(rec.Obs, w.snapshot("ROk"))
+		rec.Steps = append(rec.Steps, hstep{K: "restart"})
+	}
+	// n more store records, ids dense or sparse, every address distinct
+	var ids []uint64
+	var bulk []payload
+	for i := 0; i < n; i++ {
+		id := uint64(2 + i)
+		if sparse {
+			id = uint64(5 + 7*i + r.Intn(5))
+		}
+		ids = append(ids, id)
+		bulk = append(bulk, payload{ID: id, Addr: fmt.Sprintf("s%d", id), Ver: "4.0.0"})
+	}
+	w.kb.Arm(nil)
+	for _, p := range bulk {
+		if err := w.rc.PutStore(p.store()); err != nil {
+			panic(err)
+		}
+	}
+	rec.Obs = append(rec.Obs, w.snapshot("ROk"))
+	rec.Steps = append(rec.Steps, hstep{K: "bulk", Bulk: bulk})
+	// lifecycle commands on stores beyond the first page (and a few inside it)
+	beyond := func() uint64 { return ids[100+r.Intn(n-100)] }
+	inside := func() uint64 { return ids[r.Intn(90)] }
+	var tombs, offl []uint64
+	for k := 0; k < 3; k++ {
+		for _, id := range []uint64{beyond(), inside()} {
+			opStep(op{K: "remove", ID: id, PD: r.Pct(30)})
+			tombs = append(tombs, id)
+		}
+	}
+	opStep(op{K: "check"}) // buries them (no region peers anywhere)
+	for k := 0; k < 2; k++ {
+		id := beyond()
+		opStep(op{K: "remove", ID: id})
+		offl = append(offl, id)
+	}
+	opStep(op{K: "weight", ID: beyond(), LW: 3, RW: 4})
+	opStep(op{K: "labels", ID: beyond(), Labels: []lab{{"zone", "z9"}}})
+	restart()
+	// the new leader must know every record: a tombstone stays refused, a live address stays taken, an offline store can come up
+	for _, id := range tombs[:3] {
+		opStep(op{K: "put", Grpc: true, P: payload{ID: id, Addr: fmt.Sprintf("s%d", id), Ver: "4.0.0"}})
+		opStep(op{K: "heartbeat", ID: id})
+	}
+	live := beyond()
+	opStep(op{K: "put", P: payload{ID: ids[n-1] + 11, Addr: fmt.Sprintf("s%d", live), Ver: "4.0.0"}}) // clashes unless `live` was removed above
+	opStep(op{K: "up", ID: offl[0]})
+	opStep(op{K: "remove", ID: beyond()})
+	opStep(op{K: "check"})
+	opStep(op{K: "clean"})
+	restart()
+	opStep(op{K: "put", Grpc: true, P: payload{ID: offl[1], Addr: fmt.Sprintf("s%d", offl[1]), Ver: "4.0.5"}})
+	return rec
+}
+
+func (rc restartRec) coq() string {
+	hs := make([]string, len(rc.Steps))
+	for i, st := range rc.Steps {
+		switch st.K {
+		case "op":
+			hs[i] = "HOp (" + st.Op.coq() + ")"
+		case "restart":
+			hs[i] = "HRestart"
+		case "bulk":
+			ps := make([]string, len(st.Bulk))
+			for j, p := range st.Bulk {
+				ps[j] = p.coq()
+			}
+			hs[i] = "HBulk " + coqfmt.List(ps)
+		}
+	}
+	cv, _ := verTriple(rc.In.CV)
+	return "(" + cv + ", " + rc.In.Boot.coq() + ",\n  " + coqfmt.List(hs) + ",\n  " + coqfmt.List(rc.Obs) + ")"
+}
+
+// restart: a new leader on the same storage: the cluster is stopped, the cache emptied, and LoadClusterInfo runs again
+func (w *world) restart() {
+	w.rc.Stop()
+	bc := w.s.GetBasicCluster()
+	for _, r := range bc.GetRegions() {
+		bc.RemoveRegion(r)
+	}
+	for _, st := range bc.GetStores() {
+		bc.DeleteStore(st)
+	}
+	if err := w.rc.Start(w.s); err != nil {
+		panic(err)
+	}
+}
+
 func (p pairRec) coq() string {
 	ops := make([]string, len(p.In.Ops))
 	for i, o := range p.In.Ops {
@@ -901,8 +1028,12 @@ func (p pairRec) coq() string {
 	if p.Mid != "" {
 		mid = "(Some " + p.Mid + ")"
 	}
+	rel := "None"
+	if p.Reload != "" {
+		rel = "(Some " + p.Reload + ")"
+	}
 	return "(" + cv + ", " + p.In.Boot.coq() + ",\n  " + coqfmt.List(ops) + ",\n  " + p.A.coq() + ",\n  " + p.B.coq() +
-		",\n  (OObs " + p.RA + " " + p.RB + "\n   " + p.Before + "\n   " + mid + "\n   " + p.Final + "))"
+		",\n  (OObs " + p.RA + " " + p.RB + "\n   " + p.Before + "\n   " + mid + "\n   " + p.Final + "\n   " + rel + "))"
 }
 
 // ---------- generation ----------
@@ -1102,6 +1233,7 @@ func main() {
 	corpus := flag.String("corpus", "", "json file of fixed cases run first")
 	replay := flag.String("replay", "", "json file with cases (or an evidence replay file): run and print observations")
 	npairs := flag.Int("pairs", 80, "number of overlapping-operation cases")
+	nrestart := flag.Int("restarts", 4, "number of leader-change cases with more store records than one LoadStores page (130 / 230, dense / sparse ids)")
 	nmulti := flag.Int("multi", 60, "number of cases with several failing writes in one operation (restoring writes included)")
 	flag.Parse()
 
@@ -1287,6 +1419,31 @@ func main() {
 			panic(err)
 		}
 		R.CaseFiles = append(R.CaseFiles, mf.Files...)
+	}
+	if *replay == "" && *nrestart > 0 {
+		for len(raw)%cf.PerFile != 0 {
+			raw = append(raw, nil)
+		}
+		rf := &coqfmt.CaseFile{Dir: *out, Prefix: "C14r", PerFile: cf.PerFile,
+			Header: cf.Header, Type: "rcase",
+			Footer: "Definition M := Eval vm_compute in rmismatches cases.\nDefinition D := Eval vm_compute in (@nil nat).\nDefinition V := Eval vm_compute in monitor_r_fails cases.\nPrint M. Print D. Print V.\n"}
+		master := rng.New(*seed ^ 0x7e57a27)
+		for k := 0; k < *nrestart; k++ {
+			n := []int{130, 230}[(k/2)%2]
+			sparse := k%2 == 1
+			rc := w.runRestart(master.Fork(uint64(k)), n, sparse)
+			R.Count(fmt.Sprintf("restart-class:%d-records:%s", n+1, map[bool]string{true: "sparse-ids", false: "dense-ids"}[sparse]))
+			txt := rc.coq()
+			R.Case(txt, true)
+			if err := rf.Add(txt); err != nil {
+				panic(err)
+			}
+			raw = append(raw, rc)
+		}
+		if err := rf.Flush(); err != nil {
+			panic(err)
+		}
+		R.CaseFiles = append(R.CaseFiles, rf.Files...)
 	}
 	for k := range w.notes {
 		R.Notes = append(R.Notes, k)
